@@ -26,6 +26,7 @@ namespace cdsverif {
 
     struct SchedStats {
         uint64_t points = 0;          // scheduling points executed while >1 thread existed
+        uint64_t counted = 0;         // ... of which count towards pre-emption gaps (not inside gap_freeze)
         uint64_t switches = 0;        // token hand-overs
         uint64_t preemptions = 0;     // pre-emptive switches (listed or random-walk)
         uint64_t yields = 0;
@@ -57,6 +58,14 @@ namespace cdsverif {
         no_sched() noexcept;
         ~no_sched() noexcept;
     };
+
+    // while alive, the scheduling points of this thread do not count towards the generated
+    // pre-emption gaps (used around thread attach/detach so that schedules aim at operations)
+    struct gap_freeze {
+        gap_freeze() noexcept;
+        ~gap_freeze() noexcept;
+    };
+    uint64_t counted_points() noexcept;
 
     // block (yielding) until pred() is true
     template <typename Pred>
